@@ -27,11 +27,11 @@ package docker
 
 // C02 / C10: private transport without proxy (see pkg/scan/elastic); defaults first, then the options in order
 //@ func WithDataTimeout$1
-//@   props C10
+//@   props C10 C08
 //@   modifies s.dataTimeout
 //@   ensures s.dataTimeout == timeout
 //@ func NewScanner
-//@   props C02 C10
+//@   props C02 C10 C08
 //@   observe o
 //@   entry row init:  [] when s.proto == proto && s.client.Timeout == 0 && isptr(s.client.Transport, http.Transport) && fresh(asptr(s.client.Transport, http.Transport))
 //@                       && asptr(s.client.Transport, http.Transport).Proxy == nil && asptr(s.client.Transport, http.Transport).DialContext == nil && asptr(s.client.Transport, http.Transport).DisableKeepAlives -> loop 0
@@ -44,3 +44,7 @@ package docker
 //@   props C14
 //@   observe json.Marshal
 //@   entry row marshal: [call json.Marshal(bind_x) as (b, e)] when ret0 == b && ret1 == e -> exit
+
+// plain-text form of a record: printing never panics, whatever the scanned host put into the record (C10 C08)
+//@ func (*ScanResult).String
+//@   props C10 C08
